@@ -19,7 +19,8 @@ From Coq Require Import NArith ZArith List Bool Arith String Ascii.
 From CL Require Import Base.Sx Base.Res Base.Str Regex.Rx Generated.RxC07 Generated.C07Facts
   Model.CSS Model.XmlContent Model.CheckDTD
   Proofs.CheckDTDProofs Proofs.CheckDTDSpec Proofs.CheckDTDTheorems Proofs.CSSProofs
-  Proofs.XmlRejectProofs Proofs.XmlAcceptProofs Proofs.XmlValueProofs Proofs.C07Final.
+  Proofs.XmlRejectProofs Proofs.XmlAcceptProofs Proofs.XmlValueProofs Proofs.C07Final
+  Proofs.CheckDTDTotal.
 Import ListNotations.
 Local Open Scope list_scope.
 
@@ -133,6 +134,16 @@ Theorem C07_broken_rejected_partial : forall declared key,
   (forall v, In c_pct v -> value_ok declared key v = false).
 Proof. exact broken_rejected. Qed.
 
+(* ---- check raises nothing ---------------------------------------------------------------------------------------
+   For every oracle (whatever line / column expat reports), cache, reference and pair of
+   entities — empty localized values included — the only tag check can raise is the
+   assertion that a non-optional regex group took part in a match: no IndexError (the
+   repaired `lines[lnr - 1]` of an empty value), no running out of fuel. *)
+Theorem C07_check_raises_only_assertion :
+  forall sax uesc cache reference android ref l10n t,
+  check sax uesc cache reference android ref l10n = Raise t -> t = AssertionError.
+Proof. exact check_raises_only_assertion. Qed.
+
 (* ---- examples: the premises are satisfiable, concrete runs ---------------------------------------------------------- *)
 Definition s (x : string) : str := map (fun a => N.of_nat (nat_of_ascii a)) (list_ascii_of_string x).
 
@@ -177,6 +188,19 @@ Example C07_example_broken_check :
   | Raise _ => False
   end.
 Proof. vm_compute. reflexivity. Qed.
+
+(* an empty localized value whose second document is rejected on line 2 (a key expat does
+   not accept, after a line feed): an error at (0, 0), not an exception *)
+Example C07_example_empty_value :
+  let ref := mkent (s "k") (s "") (s "<!ENTITY k """">") in
+  let l10n := mkent (s "k") [] (s "<!ENTITY k """">") in
+  let sax := fun d => if contains (s "&k;") d then mksax (Some (2%Z, 0%Z, s "not well-formed")) []
+                      else mksax None [] in
+  check sax (fun _ => None) None (Some [[]]) false ref l10n =
+    Ok ([lit_issue y_cant_parse (PTuple 0 0);
+         var_issue y_xmlparse (PTuple 0 0) (s "not well-formed")], Some []) /\
+  error_position [] 2 0 = PTuple 0 0 /\ error_position [] 7 5 = PTuple 0 0.
+Proof. vm_compute. repeat split; reflexivity. Qed.
 
 Example C07_example_number_length :
   is_match rx_c07_length (s "12em") = true /\ is_match rx_c07_length (s "12") = false /\
